@@ -460,6 +460,9 @@ func allocFacts(v *Val, ac *Term) []*Term {
 		if v.T == nil || v.Addr != nil {
 			return nil
 		}
+		if isOpaque(v.T) {
+			return []*Term{Lt(v.X, ac), Lt(Num(0), v.X)} // tokens are allocated like references
+		}
 		switch v.T.Underlying().(type) {
 		case *types.Pointer, *types.Map, *types.Chan:
 			out = append(out, Lt(v.X, ac))
@@ -752,7 +755,7 @@ func (fr *Frame) localByName(st *State, name string) *Val {
 		if !fr.allocAt[l] {
 			continue
 		}
-		if best == nil || l.Pos() > best.Pos() {
+		if best == nil || l.Pos() >= best.Pos() { // ties (position-less hidden locals such as rangeindex): the latest allocated
 			best = l
 		}
 	}
